@@ -54,14 +54,14 @@ def script(obj, table, e_small_min_of, sized=None):
     obj.disp = False
     obj.max_iter = 15
 
-    def calculate_excess(coordinates, h, field_specifier="N/A"):
+    def calculate_excess(coordinates, h, field_specifier="N/A", **_kw):
         key = coordinates[0]
         e = table[key] if h == HMAX else e_small_min_of(key)
         log.append((key, h, e))
         obj.searchTracker.append([field_specifier, e, 0.0, 0.0])
         return e
 
-    def initialize_ghe(coordinates, h, field_specifier="N/A"):
+    def initialize_ghe(coordinates, h, field_specifier="N/A", **_kw):
         obj._initialised = (coordinates[0], h)
         if sized is not None:
             obj.ghe.current = coordinates[0]
@@ -270,7 +270,7 @@ def run_nested(spec):
     holder = {}
 
     def stub_init(self_, coordinates_domain, field_descriptors, v_flow, borehole, bhe_type, fluid, pipe, grout, soil, sim_params, loads, method=None,
-                  flow_type=None, max_iter=15, disp=False, search=True, field_type="N/A", load_years=None):
+                  flow_type=None, max_iter=15, disp=False, search=True, field_type="N/A", load_years=None, **_kw):
         self_.sim_params = sim_params
         self_.coordinates_domain = coordinates_domain
         self_.fieldDescriptors = field_descriptors
@@ -381,6 +381,11 @@ def run_shard(spec):
         return rs(spec)
     if spec["part"] == "enum1d":
         return run_enum_1d(spec)
+    if spec["part"] == "scripted-physics":
+        from vf.props import scripted as SC
+
+        r = SC.run_batch(spec)
+        return {"kind": "scripted-physics", "viol": r["viol"]["C05"], "stats": {"physics_" + k: v for k, v in r["stats"].items()} | {"physics_runs": r["runs"]}, "samples": r["samples"]}
     return run_nested(spec)
 
 
@@ -448,6 +453,7 @@ def check(tier, seed):
     specs = [{"part": "enum1d", "seed": seed, "shard": s, "nshards": NSHARDS, "nmax": nmax, "cap_all_upto": {"quick": 12, "thorough": 24}[tier],
               "pattern_nmax": {"quick": 9, "thorough": 11}[tier]} for s in range(NSHARDS)]
     specs += [{"part": "nested", "seed": seed, "shard": s, "n": {"quick": 60, "thorough": 800}[tier]} for s in range(NSHARDS)]
+    specs += [{"part": "scripted-physics", "seed": seed, "shard": s, "nshards": NSHARDS, "n1d": {"quick": 24, "thorough": 48}[tier], "nnested": {"quick": 150, "thorough": 1500}[tier]} for s in range(NSHARDS)]
     results = run_pool("vf.props.C05", specs, timeout=5400)
     recs, problems = PC.records(tier, seed)
     rep = Report(PROP)
@@ -456,7 +462,9 @@ def check(tier, seed):
         f"(a) real Bisection1D.search on scripted excess tables: every list length 1..{nmax} x 3 count families x every threshold position x caps "
         "(none, every count and count+1 for short lists, sampled for long ones) x continue flag x two smallest-field-at-min-height values, and "
         f"all 2^n sign patterns for n <= {specs[0]['pattern_nmax']} with distinct magnitudes; real Bisection2D.__init__ and BisectionZD flows on random "
-        "monotone nested tables with scripted sizing. (b) every real design run of the scenario pool: root condition, bound sign, drilling "
+        "monotone nested tables with scripted sizing; and the COMPLETE real classes (constructors included) with only GHE / g-function "
+        "replaced by a scripted excess e(field,H), over 1-D lists x thresholds x caps x flags and random nested domains shaped like the "
+        "repository's (vf/props/scripted.py). (b) every real design run of the scenario pool: root condition, bound sign, drilling "
         "clause, predecessor clause (where the observed excess is monotone), evaluation budget. non-trivial = scripted run that reached the "
         "bisection branch + real run with an interior root; distinct by construction."
     )
@@ -474,9 +482,9 @@ def check(tier, seed):
                 agg[k] = agg.get(k, 0) + v
         for v in r["viol"]:
             rep.violate(v["mechanism"], v["message"], {"case": v["case"]})
-    rep.evaluations += agg.get("runs", 0) + agg.get("runs2d", 0) + agg.get("runszd", 0)
+    rep.evaluations += agg.get("runs", 0) + agg.get("runs2d", 0) + agg.get("runszd", 0) + agg.get("physics_runs", 0)
     rep.extra["scripted"] = agg
-    scripted_nt = agg.get("bisect_monotone", 0) + agg.get("bisect_arbitrary", 0)
+    scripted_nt = agg.get("bisect_monotone", 0) + agg.get("bisect_arbitrary", 0) + agg.get("physics_regular", 0)
     for rec in recs:
         rep.evaluations += 1
         judge_real(rec, rep)
